@@ -162,7 +162,9 @@ Section Proofs.
 
   (* the table part of a step; directives are bookkeeping on top of it *)
   Definition core (s : state) (a : action) : state :=
-    match a with Est p => do_est s p | Lost p => do_lost s p | Resolve _ _ => s | Ready => set_ready s end.
+    match a with
+    | Est p => if st_ready s then do_est s p else close_only s p
+    | Lost p => do_lost s p | Resolve _ _ => s | Ready => set_ready s end.
 
   Lemma set_dirs_eta s : set_dirs s (st_dirs s) = s.
   Proof. destruct s; reflexivity. Qed.
@@ -177,7 +179,8 @@ Section Proofs.
   Lemma step_core s a : exists d, fst (step s a) = set_dirs (core s a) d.
   Proof.
     destruct a as [p|p|src dst|]; cbn [step_gen core].
-    - destruct (est_stores U s p); cbn [fst].
+    - destruct (st_ready s); cbn [negb]; [|cbn [fst]; exists (st_dirs (close_only s p)); symmetry; apply set_dirs_eta].
+      destruct (est_stores U s p); cbn [fst].
       + destruct (dir_start_core (do_est s p) (Model.local_of U p) (Model.remote_of U p)) as [d ->].
         eexists. reflexivity.
       + exists (st_dirs (do_est s p)). symmetry. apply set_dirs_eta.
@@ -195,7 +198,8 @@ Section Proofs.
   Lemma core_peer s a : st_peer (core s a) = st_peer s.
   Proof.
     destruct a as [p|p|src dst|]; cbn [core]; [| |reflexivity|reflexivity].
-    - unfold Model.do_est. destruct (Z.eqb _ _); [reflexivity|].
+    - destruct (st_ready s); [|reflexivity].
+      unfold Model.do_est. destruct (Z.eqb _ _); [reflexivity|].
       destruct (aget _ _) as [q|]; [destruct (Nat.eqb q p)|]; reflexivity.
     - unfold Model.do_lost.
       destruct (aget _ _) as [q|]; [destruct (Nat.eqb q p)|]; try reflexivity;
@@ -214,7 +218,8 @@ Section Proofs.
   Lemma inv_core s a : Inv s -> Inv (core s a).
   Proof.
     intros I. destruct a as [p|p|src dst|]; cbn [core]; [| |exact I|destruct I; constructor; assumption].
-    - unfold Model.do_est. destruct (Z.eqb_spec (remote_of p) (st_peer s)) as [Hs|Hs].
+    - destruct (st_ready s); [|apply inv_close_only, I].
+      unfold Model.do_est. destruct (Z.eqb_spec (remote_of p) (st_peer s)) as [Hs|Hs].
       + apply inv_close_only, I.
       + fold (lget s (uuid_of p)). destruct (lget s (uuid_of p)) as [q|] eqn:Eq.
         * destruct (Nat.eqb_spec q p) as [->|Hn]; [exact I|].
@@ -254,11 +259,15 @@ Section Proofs.
     - intros H. exists p. split; [exact H|apply Nat.eqb_refl].
   Qed.
 
+  (* an establish lock region only counts when the controller is executing *)
+  Definition enabled (s : state) (a : action) : Prop :=
+    match a with Est _ => st_ready s = true | _ => True end.
+
   Lemma rel_core s L a :
-    Inv s -> Rel s L -> Rel (core s a) (live_step (st_peer s) L a).
+    Inv s -> Rel s L -> enabled s a -> Rel (core s a) (live_step (st_peer s) L a).
   Proof.
-    intros I R. destruct a as [p|p|src dst|]; cbn [core Model.live_step]; [| |exact R|exact R].
-    - unfold Model.do_est. destruct (Z.eqb_spec (remote_of p) (st_peer s)) as [Hs|Hs]; [exact R|].
+    intros I R En. destruct a as [p|p|src dst|]; cbn [core Model.live_step]; [| |exact R|exact R].
+    - cbn [enabled] in En. rewrite En. unfold Model.do_est. destruct (Z.eqb_spec (remote_of p) (st_peer s)) as [Hs|Hs]; [exact R|].
       fold (lget s (uuid_of p)).
       assert (Hins : forall s1, (forall k, lget s1 k = if Z.eqb k (uuid_of p) then None else lget s k) ->
                 Rel (insert s1 p) (p :: filter (fun q => negb (Z.eqb (Model.uuid_of U q) (uuid_of p))) L)).
@@ -296,22 +305,64 @@ Section Proofs.
   Qed.
 
   Lemma rel_step s L a :
-    Inv s -> Rel s L -> Rel (fst (step s a)) (live_step (st_peer s) L a).
-  Proof. intros I R. destruct (step_core s a) as [d ->]. apply (rel_core s L a I R). Qed.
+    Inv s -> Rel s L -> enabled s a -> Rel (fst (step s a)) (live_step (st_peer s) L a).
+  Proof. intros I R En. destruct (step_core s a) as [d ->]. apply (rel_core s L a I R En). Qed.
 
-  Lemma rel_run_from me h : forall s L,
-    Inv s -> Rel s L -> st_peer s = me -> Rel (run_from s h) (fold_left (live_step me) h L).
+  (* histories in which no establish lock region runs before the controller
+     executes (r = executing at the start) *)
+  Fixpoint wf (r : bool) (h : list action) : Prop :=
+    match h with
+    | [] => True
+    | Ready :: h' => wf true h'
+    | Est _ :: h' => r = true /\ wf r h'
+    | _ :: h' => wf r h'
+    end.
+
+  Lemma wf_true h : wf true h.
+  Proof. induction h as [|a h IH]; [exact I|]. destruct a; cbn; auto. Qed.
+
+  Lemma wf_app_l h : forall r h', wf r (h ++ h') -> wf r h.
   Proof.
-    induction h as [|a h IH]; intros s L I R Hme; [exact R|].
-    cbn [Model.run_gen fold_left].
-    change (Rel (run_from (fst (step s a)) h) (fold_left (live_step me) h (live_step me L a))).
-    apply IH; [apply inv_step, I| |rewrite step_peer; exact Hme].
-    rewrite <- Hme. apply rel_step; assumption.
+    induction h as [|a h IH]; intros r h' H; [exact I|].
+    destruct a; cbn in *; [destruct H; split; eauto|eauto|eauto|eauto].
   Qed.
 
-  Lemma rel_run me h : Rel (run me h) (live me h).
+  Definition ready_after (r : bool) (a : action) : bool := match a with Ready => true | _ => r end.
+
+  Lemma core_ready s a : st_ready (core s a) = ready_after (st_ready s) a.
   Proof.
-    apply (rel_run_from me h (initr me) []); [apply inv_init| |reflexivity].
+    destruct a as [p|p|? ?|]; cbn [core ready_after]; [| |reflexivity|reflexivity].
+    - destruct (st_ready s) eqn:E; [|exact E].
+      unfold Model.do_est. destruct (Z.eqb _ _); [exact E|].
+      destruct (aget _ _) as [q|]; [destruct (Nat.eqb q p)|]; exact E.
+    - unfold Model.do_lost.
+      destruct (aget _ _) as [q|]; [destruct (Nat.eqb q p)|]; try reflexivity;
+        destruct (find_val _ _); reflexivity.
+  Qed.
+
+  Lemma step_ready_eq s a : st_ready (fst (step s a)) = ready_after (st_ready s) a.
+  Proof. destruct (step_core s a) as [d ->]. apply core_ready. Qed.
+
+  Lemma wf_head r a h : wf r (a :: h) -> (match a with Est _ => r = true | _ => True end) /\ wf (ready_after r a) h.
+  Proof. destruct a; cbn; tauto. Qed.
+
+  Lemma rel_run_from me h : forall s L,
+    Inv s -> Rel s L -> st_peer s = me -> wf (st_ready s) h ->
+    Rel (run_from s h) (fold_left (live_step me) h L).
+  Proof.
+    induction h as [|a h IH]; intros s L I R Hme Hwf; [exact R|].
+    apply wf_head in Hwf as [Hen Hwf].
+    cbn [Model.run_gen fold_left].
+    change (Rel (run_from (fst (step s a)) h) (fold_left (live_step me) h (live_step me L a))).
+    apply IH; [apply inv_step, I| |rewrite step_peer; exact Hme|rewrite step_ready_eq; exact Hwf].
+    rewrite <- Hme. apply rel_step; [assumption|assumption|].
+    destruct a; cbn [enabled]; auto.
+  Qed.
+
+  Lemma rel_run me h : wf rdy h -> Rel (run me h) (live me h).
+  Proof.
+    intros Hwf.
+    apply (rel_run_from me h (initr me) []); [apply inv_init| |reflexivity|exact Hwf].
     intros q. unfold lget; cbn. split; [tauto|discriminate].
   Qed.
 
@@ -327,15 +378,17 @@ Section Proofs.
 
   (* the two reporting paths agree with each other and with the live set *)
   Theorem reported_is_live me h r q :
-    In q (peer_links r (run me h)) <-> In q (live me h) /\ remote_of q = r.
+    wf rdy h ->
+    (In q (peer_links r (run me h)) <-> In q (live me h) /\ remote_of q = r).
   Proof.
-    rewrite (inv_index _ (inv_run me h)), (rel_run me h q). reflexivity.
+    intros Hwf. rewrite (inv_index _ (inv_run me h)), (rel_run me h Hwf q). reflexivity.
   Qed.
 
   Theorem get_peer_links_is_live me h r q :
-    In q (get_peer_links U (run me h) r) <-> In q (live me h) /\ remote_of q = r.
+    wf rdy h ->
+    (In q (get_peer_links U (run me h) r) <-> In q (live me h) /\ remote_of q = r).
   Proof.
-    rewrite (get_peer_links_spec _ _ _ (inv_run me h)), (rel_run me h q). reflexivity.
+    intros Hwf. rewrite (get_peer_links_spec _ _ _ (inv_run me h)), (rel_run me h Hwf q). reflexivity.
   Qed.
 
   Theorem reported_nodup me h r : NoDup (peer_links r (run me h)).
@@ -372,9 +425,10 @@ Section Proofs.
 
   (* a lost link is not reported again unless the transport reports it established again *)
   Theorem lost_never_reported me h h' q r :
+    wf rdy (h ++ Lost q :: h') ->
     ~ In (Est q) h' -> ~ In q (peer_links r (run me (h ++ Lost q :: h'))).
   Proof.
-    intros Hh H. apply reported_is_live in H as [H _].
+    intros Hwf Hh H. apply (reported_is_live _ _ _ _ Hwf) in H as [H _].
     rewrite live_app in H. cbn [fold_left] in H.
     revert H. apply live_lost_absent; [|exact Hh].
     cbn [Model.live_step]. rewrite filter_In, Nat.eqb_refl. cbn. intros [_ H0]; discriminate.
@@ -382,24 +436,33 @@ Section Proofs.
 
   (* losing one link never removes another one (in particular the newer link
      that replaced it under the same uuid) *)
+  Lemma wf_snoc_lost h p : wf rdy h -> wf rdy (h ++ [Lost p]).
+  Proof.
+    generalize rdy. induction h as [|a h IH]; intros r H; [exact I|].
+    destruct a; cbn in *; [destruct H; split; auto|auto|auto|auto].
+  Qed.
+
   Theorem lost_keeps_others me h p q r :
+    wf rdy h ->
     p <> q -> In q (peer_links r (run me h)) -> In q (peer_links r (run me (h ++ [Lost p]))).
   Proof.
-    intros Hne H. apply reported_is_live in H as [H Hr]. apply reported_is_live.
+    intros Hwf Hne H. apply (reported_is_live _ _ _ _ Hwf) in H as [H Hr].
+    apply (reported_is_live _ _ _ _ (wf_snoc_lost h p Hwf)).
     split; [|exact Hr]. rewrite live_app. cbn [fold_left Model.live_step].
     rewrite filter_In. split; [exact H|]. destruct (Nat.eqb_spec q p); [congruence|reflexivity].
   Qed.
 
   (* replacement: after Est q1; Est q2 (same uuid); Lost q1, the newer q2 is reported *)
   Theorem newer_survives me h q1 q2 :
+    wf rdy (h ++ [Est q1; Est q2]) ->
     q1 <> q2 -> remote_of q2 <> me ->
     In q2 (peer_links (remote_of q2) (run me (h ++ [Est q1; Est q2; Lost q1]))).
   Proof.
-    intros Hne Hs.
+    intros Hwf Hne Hs.
     replace (h ++ [Est q1; Est q2; Lost q1]) with ((h ++ [Est q1; Est q2]) ++ [Lost q1])
       by (rewrite <- app_assoc; reflexivity).
-    apply lost_keeps_others; [exact Hne|].
-    apply reported_is_live. split; [|reflexivity].
+    apply lost_keeps_others; [exact Hwf|exact Hne|].
+    apply (reported_is_live _ _ _ _ Hwf). split; [|reflexivity].
     replace (h ++ [Est q1; Est q2]) with ((h ++ [Est q1]) ++ [Est q2])
       by (rewrite <- app_assoc; reflexivity).
     rewrite live_app. cbn [fold_left Model.live_step].
@@ -411,12 +474,13 @@ Section Proofs.
 
   (* and the replaced link is no longer reported *)
   Theorem replaced_not_reported me h q1 q2 r :
+    wf rdy (h ++ [Est q2]) ->
     q1 <> q2 -> uuid_of q1 = uuid_of q2 -> remote_of q2 <> me ->
     ~ In q1 (peer_links r (run me (h ++ [Est q2]))) \/ In q2 (live me h).
   Proof.
-    intros Hne Hu Hs.
+    intros Hwf Hne Hu Hs.
     destruct (existsb (Nat.eqb q2) (live me h)) eqn:E; [right; apply existsb_eqb, E|left].
-    intros H. apply reported_is_live in H as [H _].
+    intros H. apply (reported_is_live _ _ _ _ Hwf) in H as [H _].
     rewrite live_app in H. cbn [fold_left Model.live_step] in H.
     destruct (Z.eqb_spec (remote_of q2) me); [contradiction|].
     rewrite E in H. cbn [In] in H. rewrite filter_In in H.
@@ -426,9 +490,10 @@ Section Proofs.
 
   (* at most one live link per identifier *)
   Theorem live_unique_uuid me h q1 q2 :
+    wf rdy h ->
     In q1 (live me h) -> In q2 (live me h) -> uuid_of q1 = uuid_of q2 -> q1 = q2.
   Proof.
-    intros H1 H2 E. apply (rel_run me h) in H1. apply (rel_run me h) in H2.
+    intros Hwf H1 H2 E. apply (rel_run me h Hwf) in H1. apply (rel_run me h Hwf) in H2.
     rewrite E in H1. congruence.
   Qed.
 
@@ -452,7 +517,9 @@ Section Proofs.
       unfold Model.do_est. cbn [st_peer close_only].
       destruct (Z.eqb_spec (remote_of p) (st_peer s)); [reflexivity|contradiction].
     - pose proof (do_est_lget s p Hs) as H.
-      assert (Hp : st_peer (do_est s p) = st_peer s) by (apply (core_peer s (Est p))).
+      assert (Hp : st_peer (do_est s p) = st_peer s).
+      { unfold Model.do_est. destruct (Z.eqb _ _); [reflexivity|].
+        destruct (aget _ _) as [q|]; [destruct (Nat.eqb q p)|]; reflexivity. }
       unfold Model.do_est at 1. rewrite Hp.
       destruct (Z.eqb_spec (remote_of p) (st_peer s)); [contradiction|].
       unfold lget in H. fold (Model.uuid_of U p). rewrite H, Nat.eqb_refl. reflexivity.
@@ -464,7 +531,8 @@ Section Proofs.
   Proof.
     intros H. destruct (step_core s a) as [d ->]. cbn [set_dirs st_closed].
     destruct a as [p|p|src dst|]; cbn [core]; [| |exact H|exact H].
-    - unfold Model.do_est. destruct (Z.eqb _ _); [right; exact H|].
+    - destruct (st_ready s); [|right; exact H].
+      unfold Model.do_est. destruct (Z.eqb _ _); [right; exact H|].
       destruct (aget _ _) as [x|]; [destruct (Nat.eqb x p)|]; cbn; auto.
     - unfold Model.do_lost.
       destruct (aget _ _) as [x|]; [destruct (Nat.eqb x p)|]; cbn; auto;
@@ -480,7 +548,8 @@ Section Proofs.
     destruct (step_core s a) as [d ->].
     change (Tracked (core s a) q).
     destruct a as [p|p|src dst|]; cbn [core]; [| |left; exact H|left; exact H].
-    - unfold Model.do_est. destruct (Z.eqb _ _); [left; exact H|].
+    - destruct (st_ready s); [|left; exact H].
+      unfold Model.do_est. destruct (Z.eqb _ _); [left; exact H|].
       fold (lget s (uuid_of p)). destruct (lget s (uuid_of p)) as [x|] eqn:Ex.
       + destruct (Nat.eqb_spec x p) as [->|Hn]; [left; exact H|].
         pose proof (inv_uuid _ I _ _ Ex) as Hu.
@@ -502,7 +571,8 @@ Section Proofs.
   Lemma tracked_est s q : Inv s -> Tracked (fst (step s (Est q))) q.
   Proof.
     intros I. destruct (step_core s (Est q)) as [d ->].
-    change (Tracked (do_est s q) q).
+    change (Tracked (core s (Est q)) q). cbn [core].
+    destruct (st_ready s); [|right; cbn; auto].
     destruct (Z.eqb_spec (remote_of q) (st_peer s)) as [Hs|Hs].
     - right. unfold Model.do_est. destruct (Z.eqb_spec (remote_of q) (st_peer s)); [|contradiction].
       cbn. auto.
@@ -526,13 +596,14 @@ Section Proofs.
 
   (* a link that was established and then reported lost has been closed *)
   Theorem lost_is_closed me h h' q :
+    wf rdy (h ++ Lost q :: h') ->
     In (Est q) h -> ~ In (Est q) h' -> In q (st_closed (run me (h ++ Lost q :: h'))).
   Proof.
-    intros He Hn.
+    intros Hwf He Hn.
     assert (T : Tracked (run me (h ++ Lost q :: h')) q).
     { apply established_tracked. apply in_or_app. left; exact He. }
     destruct T as [T|T]; [|exact T].
-    exfalso. apply (rel_run me) in T. rewrite live_app in T. cbn [fold_left] in T.
+    exfalso. apply (rel_run me _ Hwf) in T. rewrite live_app in T. cbn [fold_left] in T.
     revert T. apply live_lost_absent; [|exact Hn].
     cbn [Model.live_step]. rewrite filter_In, Nat.eqb_refl. cbn. intros [_ H0]; discriminate.
   Qed.
@@ -542,18 +613,19 @@ Section Proofs.
 
   (* ---- C04 ---- *)
   Theorem resolve_sound me h src dst q :
+    wf rdy h ->
     In q (resolve (run me h) src dst) ->
     dst <> 0 /\ (src = 0 \/ src = me) /\ remote_of q = dst /\ remote_of q <> me /\ In q (live me h).
   Proof.
-    unfold resolve. rewrite run_peer.
+    intros Hwf. unfold resolve. rewrite run_peer.
     destruct (st_ready _); cbn [negb]; [|intros []].
     destruct (Z.eqb_spec dst 0); [intros []|].
     destruct (Z.eqb_spec src 0) as [->|Hs]; cbn [negb andb].
-    - intros H. pose proof H as H'. apply reported_is_live in H as [H1 H2].
+    - intros H. pose proof H as H'. apply (reported_is_live _ _ _ _ Hwf) in H as [H1 H2].
       apply (inv_index _ (inv_run me h)) in H' as [H3 _].
       apply (inv_noself _ (inv_run me h)) in H3. rewrite run_peer in H3. tauto.
     - destruct (Z.eqb_spec src me) as [->|]; cbn [negb]; [|intros []].
-      intros H. pose proof H as H'. apply reported_is_live in H as [H1 H2].
+      intros H. pose proof H as H'. apply (reported_is_live _ _ _ _ Hwf) in H as [H1 H2].
       apply (inv_index _ (inv_run me h)) in H' as [H3 _].
       apply (inv_noself _ (inv_run me h)) in H3. rewrite run_peer in H3. tauto.
   Qed.
@@ -574,11 +646,12 @@ Section Proofs.
   (* a request for a link from src to dst only yields links between them,
      given the transport contract: links it reports have its own peer as local peer *)
   Theorem resolve_between me h src dst q :
+    wf rdy h ->
     (forall p, In (Est p) h -> local_of p = me) ->
     In q (resolve (run me h) src dst) ->
     (src = 0 \/ local_of q = src) /\ remote_of q = dst /\ local_of q = me /\ remote_of q <> me.
   Proof.
-    intros Hc H. apply resolve_sound in H as (_ & Hs & Hr & Hn & HL).
+    intros Hwf Hc H. apply (resolve_sound _ _ _ _ _ Hwf) in H as (_ & Hs & Hr & Hn & HL).
     apply live_established in HL as [HL|HE]; [destruct HL|].
     rewrite (Hc _ HE). destruct Hs as [-> | ->]; tauto.
   Qed.
@@ -592,8 +665,9 @@ Section Proofs.
   Qed.
 
   Theorem self_never_yielded me h src dst q :
+    wf rdy h ->
     remote_of q = me -> ~ In q (resolve (run me h) src dst).
-  Proof. intros H Hin. apply resolve_sound in Hin. tauto. Qed.
+  Proof. intros Hwf H Hin. apply (resolve_sound _ _ _ _ _ Hwf) in Hin. tauto. Qed.
 
   Theorem self_never_reported me h r q :
     remote_of q = me -> ~ In q (get_peer_links U (run me h) r).
